@@ -177,11 +177,12 @@ func (q *querier) resolveRefQuery(ctx context.Context, repo vcs.Repository, majo
 	}
 
 	var version *vcs.Version
+History:
 	for ancestor := range revision.History() {
 		for _, v := range slices.Backward(versions) {
 			if v.Version.Path == query.path && majorVersionMatch(majorVersion, v.Version.Version) && v.RevisionID == ancestor.ID() {
 				version = v
-				break
+				break History
 			}
 		}
 	}
